@@ -876,6 +876,162 @@ def point_intersects_task(skind, sspec, pderiv='identity', sliced_shape=False, t
     return out
 
 
+def point_intersects_inert_task(skind, sspec, timeout=120, seed=0):
+    """C17: an element without any finite coordinate (all NaN) never satisfies PointArray.intersects - neither as a point
+    of the array nor as the shape.  Coordinates carry NaN flags; every element is all-finite or all-NaN; array,
+    inds and scalar forms."""
+    t0 = time.time()
+    values.set_mul_mode('uf')
+    ts = T.TagSpace(sort='int', flags='nan')
+    parr, _ = T.build_array(ts, 'point', ['P', None, 'P'])
+    sarr, _ = T.build_array(ts, skind, [sspec])
+    shape = sarr[0]
+    ssym = T.symbolic_element(ts, skind, T.element_tags(skind, shape))
+    it = ts.install(Interp())
+    n = len(parr)
+    psyms = [T.symbolic_element(ts, 'point', T.element_tags('point', parr[j])) for j in range(n)]
+
+    def coords(kind, sym):
+        return [Num.lift(c) for c in T.coords_of(kind, sym)]
+    s_cs = coords(skind, ssym)
+    s_inert = z3.And(*[z3.Not(c13.finite(c)) for c in s_cs]) if s_cs else z3.BoolVal(True)
+    dom = [z3.Or(z3.And(*[c13.finite(c) for c in s_cs]), s_inert)] if s_cs else []
+    p_inert = []
+    for ps in psyms:
+        cs = coords('point', ps) if ps is not None else []
+        if ps is None or not cs:
+            p_inert.append(z3.BoolVal(True))
+        else:
+            p_inert.append(z3.And(*[z3.Not(c13.finite(c)) for c in cs]))
+            dom.append(z3.Or(z3.And(*[c13.finite(c) for c in cs]), p_inert[-1]))
+    findings, checks = [], []
+
+    def attr(o, name):
+        return it.getattr_(o, name, None, True)
+    o = guarded(lambda: it.call(attr(parr, 'intersects'), [shape]))
+    if o.exc:
+        findings.append(('intersects', 'array', 'raises', o.exc))
+    elif len(o.vals) != n:
+        findings.append(('intersects', 'array', 'mismatch', f'length {len(o.vals)}'))
+    else:
+        checks.append(('inert intersects[array]', z3.Or(*[z3.And(z3.Or(p_inert[j], s_inert), as_bool_term(o.vals[j])) for j in range(n)])))
+        vac = [('reach: a point intersects', z3.Or(*[as_bool_term(o.vals[j]) for j in range(n)])),
+               ('reach: an inert point or shape exists', z3.Or(s_inert if s_cs else z3.BoolVal(False), *[p_inert[j] for j in range(n) if psyms[j] is not None]))]
+    inds = [2, 0, 1]
+    o = guarded(lambda: it.call(attr(parr, 'intersects'), [shape], {'inds': np.array(inds)}))
+    if o.exc:
+        findings.append(('intersects', f'inds={inds}', 'raises', o.exc))
+    elif len(o.vals) == len(inds):
+        checks.append((f'inert intersects[inds={inds}]', z3.Or(*[z3.And(z3.Or(p_inert[j], s_inert), as_bool_term(o.vals[k])) for k, j in enumerate(inds)])))
+    for j in range(n):
+        if parr[j] is None:
+            continue
+        o = guarded(lambda j=j: it.call(attr(parr[j], 'intersects'), [shape]))
+        if o.exc:
+            findings.append(('intersects', f'scalar[{j}]', 'raises', o.exc))
+        else:
+            checks.append((f'inert intersects[scalar {j}]', z3.And(z3.Or(p_inert[j], s_inert), as_bool_term(o.vals))))
+    s = z3.Solver()
+    s.add(*ts.cons)
+    s.add(*dom)
+    res, solver_s, nq = {}, 0.0, 0
+    for name, cond in (vac if not findings and checks else []):          # reachability twins: must be satisfiable
+        s.push()
+        s.add(cond)
+        st, _m, dt = z3_check(s, min(timeout, 60), seed)
+        solver_s += dt
+        nq += 1
+        s.pop()
+        if st != 'sat':
+            return {'status': 'error', 'detail': f'vacuity twin failed: {name}: {st}', 'solver_s': round(solver_s, 3), 'queries': nq, 'formula_size': 1, 'encoded': it.encoded,
+                    'findings': [], 'verdicts': {}}
+    for name, disj in checks:
+        s.push()
+        s.add(disj)
+        st, m, dt = z3_check(s, timeout, seed)
+        solver_s += dt
+        nq += 1
+        res[name] = st
+        if m is not None:
+            findings.append((name, 'solver', 'differs', {'model': model_ints(m, ts.zvars)}))
+        s.pop()
+    out = {'status': 'unsat' if not findings and all(v == 'unsat' for v in res.values()) else ('sat' if findings else 'unknown'),
+           'solver_s': round(solver_s, 3), 'queries': nq, 'formula_size': sum(len(str(d)) for _, d in checks[:3]) + 1, 'encoded': it.encoded,
+           'findings': findings, 'verdicts': res, 'symex_s': round(time.time() - t0 - solver_s, 2)}
+    if not findings and any(v != 'unsat' for v in res.values()):
+        out['detail'] = f"undecided: {[k for k, v in res.items() if v != 'unsat']}"
+    return out
+
+
+def replay_point_intersects_inert(skind, sspec, finding):
+    """real arrays with the model's NaN pattern: every form must give False for inert points / an inert shape"""
+    import math
+    import spatialpandas.geometry as sg
+    quantity, form, problem, detail = finding
+    model = detail.get('model') if isinstance(detail, dict) else {}
+    ts = T.TagSpace()
+    ppy = [T.build_element(ts, 'point', sp)[0] for sp in ['P', None, 'P']]
+    spy = [T.build_element(ts, skind, sspec)[0]]
+    vals = _concrete_values(model or {}, ts.n)
+
+    def sub(x):
+        if isinstance(x, list):
+            return [sub(e) for e in x]
+        if x is None:
+            return None
+        i = (int(x) - T.TAG_BASE) // T.TAG_STEP
+        return float('nan') if (model or {}).get(f't{i}_nan') else float(vals[i])
+    parr = sg.PointArray([sub(e) for e in ppy], dtype='float64')
+    sarr = T.array_class(skind)([sub(e) for e in spy], dtype='float64')
+    shape = sarr[0]
+
+    def flat(x):
+        return [c for y in x for c in flat(y)] if isinstance(x, list) else [x]
+    s_inert = not any(math.isfinite(c) for c in flat(sub(spy[0])))
+    p_inert = [e is None or not any(math.isfinite(c) for c in flat(sub(e))) for e in ppy]
+    wit = {'kind': 'point', 'shape_kind': skind, 'shape': sub(spy[0]), 'points': [sub(e) for e in ppy], 'quantity': 'intersects', 'form': 'array/inds/scalar',
+           'elements': [sub(e) for e in ppy]}
+    try:
+        got = {'array': [bool(x) for x in parr.intersects(shape)], 'inds[2,0,1]': [bool(x) for x in parr.intersects(shape, inds=np.array([2, 0, 1]))],
+               'scalar': [False if parr[j] is None else bool(parr[j].intersects(shape)) for j in range(len(parr))]}
+    except Exception as e:  # noqa: BLE001
+        wit['got'] = f'raises {type(e).__name__}: {str(e)[:160]}'
+        return True, wit
+    wit.update(got=got, expected=f"False wherever the point is inert {p_inert} or the shape is inert ({s_inert})")
+    bad = any(v and (s_inert or p_inert[j]) for j, v in enumerate(got['array'])) or any(v and (s_inert or p_inert[j]) for j, v in enumerate(got['scalar'])) \
+        or any(v and (s_inert or p_inert[j]) for v, j in zip(got['inds[2,0,1]'], [2, 0, 1]))
+    return bad, wit
+
+
+def run_point_intersects_inert(check, pool, Task, pid='C17'):
+    tasks = []
+    for skind, sspec in (('point', 'P'), ('multipoint', 2), ('line', 2), ('line', 3), ('multiline', [2, 2]), ('polygon', [3]), ('multipolygon', [[3]])):
+        nm = f"inert: PointArray.intersects({skind} {sspec}) with all-NaN points / shape"
+        tasks.append(Task(nm, point_intersects_inert_task, (skind, sspec), {'seed': check.seed}, timeout=600, meta={'skind': skind, 'sspec': sspec}))
+    res = pool(tasks)
+    for t in tasks:
+        r = res.get(t.name, {'status': 'error', 'detail': 'no result'})
+        m = t.meta
+        fnd = r.get('findings') or []
+        if r['status'] == 'sat' and fnd:
+            outcome = []
+            for f in fnd:
+                try:
+                    bad, wit = replay_point_intersects_inert(m['skind'], m['sspec'], f)
+                except Exception as e:  # noqa: BLE001
+                    check.harness_error(f"replay of {t.name} failed: {type(e).__name__}: {e}\n{traceback.format_exc()[-600:]}")
+                    continue
+                if bad:
+                    outcome.append(check.violation(f"{pid}:point-intersects-inert:{m['skind']}", f"PointArray.intersects({m['skind']}) is True for an element without finite coordinates: "
+                                                   f"points {wit['points']} shape {wit['shape']} -> {wit.get('got')}", wit))
+                else:
+                    outcome.append('spurious')
+            st = 'violated' if any(o in ('new', 'dup') for o in outcome) else ('known-finding' if outcome and all(o == 'known' for o in outcome) else 'inconclusive')
+            check.record(t.name, dict(r, status=st, detail='symbolic finding did not reproduce on the real code' if st == 'inconclusive' else None), 'wrapper', m)
+        else:
+            check.record(t.name, r, 'wrapper', m)
+
+
 def replay_point_intersects(skind, sspec, pderiv, sliced_shape, finding, sdtype=None):
     """real PointArray.intersects forms against the value for a fresh one-point array (missing -> False)"""
     quantity, form, problem, detail = finding
